@@ -53,7 +53,14 @@ func cmdC01(seed uint64, tier, outdir string) {
 		return corpora[thr]
 	}
 	run := func(bc *builtCorpus, docs []corpusDoc, label string) {
-		q := bc.c.VerifQ()
+		// minimum run length implied by the threshold, as the property states it (4 words at 0.8)
+		q := 10
+		if bc.thr < 1 {
+			q = int(bc.thr / (1 - bc.thr))
+			if q < 1 {
+				q = 1
+			}
+		}
 		var sb strings.Builder
 		var copies []plantedCopy
 		tokOff, lineOff := 0, 0
@@ -132,6 +139,34 @@ func cmdC01(seed uint64, tier, outdir string) {
 		}
 		run(bc, docs, "embedded")
 	}
+	// every threshold of a fine grid with a user-added document of exactly the minimum run length
+	// the property states for it (floor(t/(1-t)) words, 10 at 1.0), and one word more
+	grid := 31
+	for gi := 0; gi < grid; gi++ {
+		if tier != "thorough" && gi%3 != int(seed%3) {
+			continue
+		}
+		thr := float64(70+gi) / 100
+		qspec := 10
+		if thr < 1 {
+			qspec = int(thr / (1 - thr))
+			if qspec < 1 {
+				qspec = 1
+			}
+		}
+		var docs []corpusDoc
+		for k, extra := range []int{0, 1, 7} {
+			var ws []string
+			for j := 0; j < qspec+extra; j++ {
+				ws = append(ws, fmt.Sprintf("%s%s", synthVocab[(j*7+k*3+gi)%len(synthVocab)], []string{"", "x", "y"}[k]))
+			}
+			docs = append(docs, corpusDoc{"License", fmt.Sprintf("Min-%d-%d", gi, k), "m.txt", []byte(strings.Join(ws, " "))})
+		}
+		bc := buildCorpus(thr, docs)
+		for _, d := range docs {
+			run(bc, []corpusDoc{d}, fmt.Sprintf("min-length thr=%.2f q=%d", thr, qspec))
+		}
+	}
 	// user-added corpora
 	for i := 0; i < n/3; i++ {
 		docs := synthCorpus(r, 2+r.intn(8))
@@ -145,6 +180,19 @@ func cmdC01(seed uint64, tier, outdir string) {
 			pick = append(pick, docs[r.intn(len(docs))])
 		}
 		run(bc, pick, "synthetic")
+		// nested documents: a small exact copy, then one that shares text with a fuzzy superset of it
+		var na, nb *corpusDoc
+		for k := range docs {
+			if docs[k].name == "Nest-A" {
+				na = &docs[k]
+			}
+			if docs[k].name == "Nest-B" {
+				nb = &docs[k]
+			}
+		}
+		if na != nil && nb != nil {
+			run(bc, []corpusDoc{*na, *nb}, "nested")
+		}
 	}
 	vw.close()
 	cw.close()
@@ -338,7 +386,10 @@ func cmdC07(seed uint64, tier, outdir string) {
 			i--
 			continue
 		}
-		switch r.intn(6) {
+		switch r.intn(8) {
+		case 6, 7:
+			kk := []int{5, 5, 5, 6, 8, 10}[r.intn(6)]
+			xs = append(xs, input{fmt.Sprintf("every-%dth-word:%s", kk, d.name), evenlySub(r, d.text, kk, r.chance(1, 2))})
 		case 0:
 			xs = append(xs, input{"exact:" + d.name, d.text})
 		case 1:
@@ -383,6 +434,12 @@ func cmdC07(seed uint64, tier, outdir string) {
 				pre = ""
 			}
 			suf := oovBlock(r, r.intn(60), r.intn(10))
+			if k == 0 && r.chance(2, 3) {
+				suf = "" // X is the last thing in the file
+				if pre == "" {
+					pre = "zzqx wobble\n"
+				}
+			}
 			npre, _, _, _ := tokCountLines(bc.c, []byte(pre))
 			lpre := strings.Count(pre, "\n")
 			got := bc.c.Match([]byte(pre + body + suf))
